@@ -1,7 +1,207 @@
 import ComposeVerif.Ops.Common
-/-! line-protocol ops for C15 (filled in by the property's owner) -/
-namespace CV.Ops.C15
+import ComposeVerif.Model.Select
+import ComposeVerif.Spec.Select
+/-!
+line-protocol ops for C15
 
-def handlers : List (String × Handler) := []
+* `c15hist` — a history executed by the real code (`init`, then per step the operation and the real outcome).
+  For every step, from the *real* project before the step: the model's outcome, whether it agrees with the
+  real outcome (for `select`: for some iteration order of the service map), and the clauses of
+  `Spec/Select.lean` that the real before/after pair violates.
+-/
+open Lean
+namespace CV.Ops.C15
+open CV.Sel
+
+/-! ## JSON → record -/
+
+def arrOf (j : Json) (k : String) : List Json :=
+  match j.getObjVal? k with
+  | .ok (.arr a) => a.toList
+  | _ => []
+
+def objOf (j : Json) (k : String) : List (String × Json) :=
+  match j.getObjVal? k with
+  | .ok (.obj o) => o.toList
+  | _ => []
+
+def strsOf (j : Json) (k : String) : List String :=
+  (arrOf j k).filterMap fun x => match x with | .str s => some s | _ => none
+
+def depOfJson (j : Json) : Dep := { required := getBool j "required", cond := getStr j "cond" }
+
+def svcOfJson (j : Json) : Svc :=
+  { image := getStr j "image"
+    profiles := strsOf j "profiles"
+    deps := (objOf j "deps").map fun (k, v) => (k, depOfJson v)
+    nets := strsOf j "nets"
+    vols := (arrOf j "vols").filterMap fun x => match x with
+      | .arr #[.str t, .str s] => some (t, s)
+      | _ => none
+    secrets := strsOf j "secrets"
+    build := match j.getObjVal? "build" with
+      | .ok (.arr a) => some (a.toList.filterMap fun x => match x with | .str s => some s | _ => none)
+      | _ => none
+    configs := strsOf j "configs" }
+
+def strMapOf (j : Json) (k : String) : AL String :=
+  (objOf j k).filterMap fun (k, v) => match v with | .str s => some (k, s) | _ => none
+
+def projOfJson (j : Json) : Proj :=
+  { services := (objOf j "services").map fun (k, v) => (k, svcOfJson v)
+    disabled := (objOf j "disabled").map fun (k, v) => (k, svcOfJson v)
+    profiles := strsOf j "profiles"
+    networks := strMapOf j "networks"
+    volumes := strMapOf j "volumes"
+    secrets := strMapOf j "secrets"
+    configs := strMapOf j "configs" }
+
+def polOfStr : String → Policy
+  | "dependents" => .dependents
+  | "ignore" => .ignore
+  | _ => .deps
+
+def opOfJson (j : Json) : Op :=
+  let names := strsOf j "names"
+  match getStr j "op" with
+  | "profiles" => .profiles names
+  | "enable" => .enable names
+  | "disable" => .disable names
+  | "select" => .select names (polOfStr (getStr j "pol"))
+  | _ => .prune
+
+/-! ## record → canonical JSON (maps sorted by key by `Json.mkObj`) -/
+
+def strs (l : List String) : Json := .arr (l.map Json.str).toArray
+
+def depToJson (d : Dep) : Json := Json.mkObj [("required", .bool d.required), ("cond", .str d.cond)]
+
+def svcToJson (s : Svc) : Json :=
+  Json.mkObj [("image", .str s.image), ("profiles", strs s.profiles),
+    ("deps", Json.mkObj (s.deps.map fun (k, d) => (k, depToJson d))),
+    ("nets", strs s.nets),
+    ("vols", .arr (s.vols.map fun (t, x) => Json.arr #[.str t, .str x]).toArray),
+    ("secrets", strs s.secrets),
+    ("build", match s.build with | some l => strs l | none => .null),
+    ("configs", strs s.configs)]
+
+def strMapToJson (m : AL String) : Json := Json.mkObj (m.map fun (k, v) => (k, Json.str v))
+
+def projToJson (p : Proj) : Json :=
+  Json.mkObj [("services", Json.mkObj (p.services.map fun (k, s) => (k, svcToJson s))),
+    ("disabled", Json.mkObj (p.disabled.map fun (k, s) => (k, svcToJson s))),
+    ("profiles", strs p.profiles),
+    ("networks", strMapToJson p.networks), ("volumes", strMapToJson p.volumes),
+    ("secrets", strMapToJson p.secrets), ("configs", strMapToJson p.configs)]
+
+def outToJson : Out → Json
+  | .ok p => Json.mkObj [("ok", projToJson p)]
+  | .err => Json.mkObj [("err", "noSuchService")]
+  | .fuel => Json.mkObj [("panic", "model-fuel")]
+
+/-! ## canonical form (equality of projects up to the order of map entries) -/
+
+def sortAL {α} (m : AL α) : AL α := m.mergeSort (fun a b => decide (a.1 ≤ b.1))
+
+def canonSvc (s : Svc) : Svc := { s with deps := sortAL s.deps, nets := s.nets.mergeSort (fun a b => decide (a ≤ b)) }
+
+def canon (p : Proj) : Proj :=
+  { services := sortAL (p.services.map fun (k, s) => (k, canonSvc s))
+    disabled := sortAL (p.disabled.map fun (k, s) => (k, canonSvc s))
+    profiles := p.profiles
+    networks := sortAL p.networks, volumes := sortAL p.volumes
+    secrets := sortAL p.secrets, configs := sortAL p.configs }
+
+def insertEverywhere {α} (x : α) : List α → List (List α)
+  | [] => [[x]]
+  | y :: ys => (x :: y :: ys) :: (insertEverywhere x ys).map (y :: ·)
+
+def perms {α} : List α → List (List α)
+  | [] => [[]]
+  | x :: xs => (perms xs).flatMap (insertEverywhere x)
+
+/-- does some iteration order of the service map make the model produce `q`? (bounded: ≤ 7 services) -/
+def selectSomeOrder (p : Proj) (names : List String) (pol : Policy) (q : Proj) : Bool :=
+  if p.services.length > 7 then false
+  else (perms p.services).any fun l =>
+    match withSelectedServices { p with services := l } names pol with
+    | .ok m => canon m == q
+    | _ => false
+
+/-! ## spec clauses decided on a real before/after pair -/
+
+def clause (name : String) (b : Bool) : List String := if b then [] else [name]
+
+def specViolations (p : Proj) (o : Op) (r : Option Proj) : List String :=
+  (match r with
+   | some q => clause "profiles-ok" (decide (ProfilesOK p → ProfilesOK q))
+   | none => []) ++
+  match o, r with
+  | .profiles P, some q =>
+    clause "conserved" (decide (Conserved p q)) ++ clause "profiles" (decide (ProfilesSpec p P q)) ++
+    clause "resources" (decide (sameResources p q))
+  | .enable ns, some q =>
+    clause "conserved" (decide (Conserved p q)) ++ clause "enable" (decide (EnableSpec p ns q)) ++
+    clause "resources" (decide (sameResources p q))
+  | .disable ns, some q =>
+    clause "conserved" (decide (Conserved p q)) ++ clause "disable" (decide (DisableSpec p ns q)) ++
+    clause "resources" (decide (sameResources p q))
+  | .select ns pol, r =>
+    if ns.isEmpty then clause "select-all" (r == some p)
+    else match selectWanted p ns pol, r with
+      | none, none => []
+      | some S, some q =>
+        clause "closure-saturated" (decide (Closed p.services pol ns S)) ++
+        clause "conserved" (decide (Conserved p q)) ++ clause "select" (decide (SelectSpec p S q)) ++
+        clause "resources" (decide (sameResources p q))
+      | none, some _ => ["select-accepts-missing"]
+      | some _, none => ["select-rejects"]
+  | .prune, some q => clause "prune" (decide (PruneSpec p q))
+  | _, none => ["unexpected-error"]
+
+/-- real outcome: `some (some q)` ok, `some none` error, `none` crash -/
+def realOf (j : Json) : Option (Option Proj) :=
+  match j.getObjVal? "ok" with
+  | .ok q => some (some (canon (projOfJson q)))
+  | _ => match j.getObjVal? "err" with
+    | .ok _ => some none
+    | _ => none
+
+def stepJson (p : Proj) (o : Op) (real : Option (Option Proj)) : Json :=
+  let m := applyOp p o
+  let (agree, via) : Bool × String :=
+    match m, real with
+    | .ok mq, some (some q) =>
+      if canon mq == q then (true, "exact")
+      else match o with
+        | .select ns pol => if selectSomeOrder p ns pol q then (true, "order") else (false, "none")
+        | _ => (false, "none")
+    | .err, some none => (true, "exact")
+    | _, _ => (false, "none")
+  let spec : List String := match real with
+    | some r => if decide (Partition p) then specViolations p o r else ["skipped:not-a-partition"]
+    | none => []
+  Json.mkObj [("agree", .bool agree), ("via", .str via), ("spec", strs spec),
+    ("model", match m with | .ok mq => outToJson (.ok (canon mq)) | e => outToJson e)]
+
+def histSteps : Proj → List Json → List Json
+  | _, [] => []
+  | p, s :: rest =>
+    let o := opOfJson (getObj s "op")
+    let real := realOf (getObj s "real")
+    let next := match real with | some (some q) => q | _ => p
+    stepJson p o real :: histSteps next rest
+
+def hist : Handler := fun args =>
+  let p := canon (projOfJson (getObj args "init"))
+  Json.mkObj [("steps", .arr (histSteps p (arrOf args "steps")).toArray)]
+
+/-- model only: run a history on the model (used by hand and by the Neg replay) -/
+def modelRun : Handler := fun args =>
+  let p := projOfJson (getObj args "init")
+  let ops := (arrOf args "ops").map opOfJson
+  projToJson (canon (run p ops))
+
+def handlers : List (String × Handler) := [("c15hist", hist), ("c15run", modelRun)]
 
 end CV.Ops.C15
